@@ -14,6 +14,17 @@
 //   - in SEPARATE processes: the real CLIs built from the tree under test, run the way
 //     go:generate runs them, `reps` times.
 //
+// Package states before a generation: fresh (no output file), existing (the previous, identical
+// output), and STALE outputs: the longer output of a superset configuration (more -types: the
+// definition is then regenerated with its first type only and must equal what a fresh package
+// gives for that configuration), the shorter output of the subset configuration, a long foreign
+// file and a minimal one with the right package clause.
+//
+// One process must also not carry state from one PACKAGE to the next: "twin" genum packages
+// declare equally named parsable trait types with different method sets (one decodes itself from
+// JSON/text, the other does not) and are generated in one worker process in both orders; their
+// in-process outputs are compared with what separate processes write.
+//
 // After every generation the SHA-256 of the output file is recorded.  Nothing is judged here.
 //
 //	c14 -seed N -out PREFIX -work DIR -repo SCRATCHREPO -gosum FILE -gsort BIN -genum BIN -gerror BIN
@@ -72,6 +83,8 @@ type Def struct {
 	Source  string         `json:"source"`
 	Structs []SStruct      `json:"structs,omitempty"` // gsort only, in -types order
 	Counts  map[string]int `json:"counts"`            // how many of each map-kept thing the definition has
+	Batch   string         `json:"batch,omitempty"`   // definitions with the same batch share one worker process, in this order
+	First   bool           `json:"first,omitempty"`   // index 0 of its stream (gets the stale sequence in-process in the quick tier)
 	Enums   []EnumInfo     `json:"enums,omitempty"`   // genum only
 	Errors  []ErrInfo      `json:"errors,omitempty"`  // gerror only
 }
@@ -403,6 +416,48 @@ func genumParsableDef(r *rand.Rand, n int) Def {
 	return d
 }
 
+// genumTwinDefs: two pairs of packages; in each pair both declare a parsable trait type `Code`
+// (same rendered type reference), one with UnmarshalJSON/UnmarshalText methods, one plain.  Pair a
+// is generated self-decoding package first, pair b plain package first.
+func genumTwinDefs(r *rand.Rand, n int) []Def {
+	mk := func(pkg, enum string, methods []string, batch string) Def {
+		var b strings.Builder
+		fmt.Fprintf(&b, "//nolint:all // farm definition\npackage %s\n\n", pkg)
+		if len(methods) > 0 {
+			b.WriteString("import \"strings\"\n\n")
+		}
+		b.WriteString("// Code is a parsable trait type.\ntype Code string\n\n")
+		for _, m := range methods {
+			switch m {
+			case "json":
+				b.WriteString("// UnmarshalJSON accepts any case.\nfunc (c *Code) UnmarshalJSON(data []byte) error {\n\t*c = Code(strings.ToLower(strings.Trim(string(data), `\"`)))\n\treturn nil\n}\n\n")
+			case "text":
+				b.WriteString("// UnmarshalText accepts any case.\nfunc (c *Code) UnmarshalText(data []byte) error {\n\t*c = Code(strings.ToLower(string(data)))\n\treturn nil\n}\n\n")
+			}
+		}
+		fmt.Fprintf(&b, "// %s is parsed by its code.\ntype %s int\n\n// Values.\nconst (\n", enum, enum)
+		info := EnumInfo{Type: enum, Traits: []string{"Code"}}
+		for i := 0; i < 3; i++ {
+			l := "_"
+			if i == 0 {
+				l = "_Code"
+			}
+			fmt.Fprintf(&b, "\t%sV%d, %s = %s(%d), Code(\"%s%d\")\n", enum, i, l, enum, i, strings.ToLower(enum[:1]), i)
+			info.Values = append(info.Values, EnumValue{Name: fmt.Sprintf("%sV%d", enum, i), Value: int64(i)})
+		}
+		b.WriteString(")\n")
+		return Def{Gen: "genum", Pkg: pkg, Types: []string{enum}, Opts: []string{"-parsableByTraits=Code"},
+			Source: b.String(), Batch: batch, Enums: []EnumInfo{info},
+			Counts: map[string]int{"types": 1, "traits": 1, "values": 3, "twin_packages": 1}}
+	}
+	ms := [][]string{{"json"}, {"text"}, {"json", "text"}}[r.IntN(3)]
+	a, bb := fmt.Sprintf("tw%da", n), fmt.Sprintf("tw%db", n)
+	return []Def{
+		mk(a+"x", fmt.Sprintf("Color%d", n), ms, a), mk(a+"y", fmt.Sprintf("Shade%d", n), nil, a),
+		mk(bb+"x", fmt.Sprintf("Tone%d", n), nil, bb), mk(bb+"y", fmt.Sprintf("Tint%d", n), ms, bb),
+	}
+}
+
 func gerrorDef(r *rand.Rand, n int) Def {
 	d := Def{Gen: "gerror", Pkg: fmt.Sprintf("gr%d", n), Counts: map[string]int{}}
 	nt := 2 + r.IntN(2)
@@ -502,16 +557,89 @@ func generateInProcess(kind, dir, file string, args []string) (outFile string, e
 }
 
 type job struct {
-	Kind string   `json:"kind"`
-	Dir  string   `json:"dir"`
-	Args []string `json:"args"`
+	Kind    string   `json:"kind"`
+	Dir     string   `json:"dir"`
+	Pkg     string   `json:"pkg"`
+	Args    []string `json:"args"`
+	SubArgs []string `json:"sub_args,omitempty"` // the same definition with its first type only
+	Stale   bool     `json:"stale"`              // run the stale-output sequence in-process too
+	Outs    string   `json:"outs"`               // where distinct outputs are kept (for the replay's diff)
 }
 
 type obs struct {
 	Mode  string `json:"mode"`  // inproc|cli
-	State string `json:"state"` // fresh|existing
+	State string `json:"state"` // package state before the generation
+	Cfg   string `json:"cfg"`   // full|sub
 	Sha   string `json:"sha"`   // sha256 of the output file, "" if none
 	Err   string `json:"err,omitempty"`
+}
+
+// step of a definition's generation history.
+type step struct {
+	State, Cfg, Prep string // Prep: remove|keep|long|short
+}
+
+// plan: `reps` regular generations alternating fresh / existing, then (if stale) the
+// stale-output sequence.
+func plan(j job, reps int, firstFresh bool, stale bool) []step {
+	var st []step
+	for k := 0; k < reps; k++ {
+		if (k%2 == 0) == firstFresh {
+			st = append(st, step{"fresh", "full", "remove"})
+		} else {
+			st = append(st, step{"existing", "full", "keep"})
+		}
+	}
+	if !stale {
+		return st
+	}
+	if j.SubArgs != nil {
+		st = append(st,
+			step{"fresh", "sub", "remove"},
+			step{"stale-shorter-output-of-subset", "full", "keep"},
+			step{"stale-longer-output-of-superset", "sub", "keep"},
+			step{"stale-long-foreign-file", "sub", "long"},
+			step{"stale-minimal-file", "sub", "short"})
+	}
+	return append(st, step{"stale-long-foreign-file", "full", "long"}, step{"stale-minimal-file", "full", "short"})
+}
+
+func prepare(j job, prep string) {
+	switch prep {
+	case "remove":
+		os.Remove(outPath(j))
+	case "short":
+		must(os.WriteFile(outPath(j), []byte("package "+j.Pkg+"\n"), 0o644))
+	case "long":
+		var b strings.Builder
+		fmt.Fprintf(&b, "// Code generated by %s DO NOT EDIT.\npackage %s\n\n", j.Kind, j.Pkg)
+		for i := 0; b.Len() < 300000; i++ {
+			fmt.Fprintf(&b, "// stale line %06d of an output that sat in the package before this generation ....................\n", i)
+		}
+		must(os.WriteFile(outPath(j), []byte(b.String()), 0o644))
+	}
+}
+
+// record hashes the output and keeps one copy of every distinct output.
+func record(j job, mode string, st step, errText string) obs {
+	o := obs{Mode: mode, State: st.State, Cfg: st.Cfg, Sha: hashFile(outPath(j)), Err: errText}
+	if o.Sha != "" {
+		p := filepath.Join(j.Outs, st.Cfg+"-"+o.Sha)
+		if _, err := os.Stat(p); err != nil {
+			if b, err := os.ReadFile(outPath(j)); err == nil {
+				os.MkdirAll(j.Outs, 0o755)
+				os.WriteFile(p, b, 0o644)
+			}
+		}
+	}
+	return o
+}
+
+func argsOf(j job, cfg string) []string {
+	if cfg == "sub" {
+		return j.SubArgs
+	}
+	return j.Args
 }
 
 func outPath(j job) string { return filepath.Join(j.Dir, "def."+j.Kind+".go") }
@@ -536,20 +664,26 @@ func errClass(err error) string {
 	return s
 }
 
-// worker: `reps` rounds over all jobs, interleaved, in this one process.
+// worker: the histories of all jobs, interleaved step by step, in this one process.
 func worker(jobsJSON string, reps int) {
 	var jobs []job
 	must(json.Unmarshal([]byte(jobsJSON), &jobs))
 	res := make([][]obs, len(jobs))
-	for k := 0; k < reps; k++ {
+	plans := make([][]step, len(jobs))
+	longest := 0
+	for i, j := range jobs {
+		plans[i] = plan(j, reps, true, j.Stale)
+		longest = max(longest, len(plans[i]))
+	}
+	for k := 0; k < longest; k++ {
 		for i, j := range jobs {
-			state := "existing"
-			if k%2 == 0 {
-				os.Remove(outPath(j))
-				state = "fresh"
+			if k >= len(plans[i]) {
+				continue
 			}
-			_, err := generateInProcess(j.Kind, j.Dir, "def.go", j.Args)
-			res[i] = append(res[i], obs{"inproc", state, hashFile(outPath(j)), errClass(err)})
+			st := plans[i][k]
+			prepare(j, st.Prep)
+			_, err := generateInProcess(j.Kind, j.Dir, "def.go", argsOf(j, st.Cfg))
+			res[i] = append(res[i], record(j, "inproc", st, errClass(err)))
 		}
 	}
 	must(json.NewEncoder(os.Stdout).Encode(res))
@@ -574,6 +708,7 @@ func runCmd(dir string, env []string, name string, args ...string) (int, string)
 // ---------------------------------------------------------------- main
 
 type jcase struct {
+	Cfg     string      `json:"cfg"` // full: the definition as given; sub: its first type only (stale-output histories)
 	Kind    string      `json:"kind"`
 	Def     Def         `json:"def"`
 	Obs     []obs       `json:"obs"`
@@ -675,6 +810,8 @@ func main() {
 	jobsArg := flag.String("jobs", "", "internal: JSON jobs")
 	defsFile := flag.String("defs", "", "JSON list of definitions to run instead of random ones")
 	only := flag.String("only", "gsort,genum,gerror", "generators to draw definitions for")
+	staleInproc := flag.String("stale-inproc", "first", "which definitions get the stale-output sequence in-process too: first|all")
+	twinEvery := flag.Int("twin-every", 3, "draw a set of twin genum packages at every k-th index")
 	bins := map[string]*string{
 		"gsort":  flag.String("gsort", "", "gsort CLI"),
 		"genum":  flag.String("genum", "", "genum CLI"),
@@ -695,7 +832,13 @@ func main() {
 		for i := 0; i < *n; i++ {
 			// all three are always drawn (so that a definition depends on the seed and its index
 			// only), the -only filter drops the unwanted ones
-			for _, d := range []Def{gsortDef(r, i), genumDef(r, i), gerrorDef(r, i), genumParsableDef(r, i)} {
+			ds := []Def{gsortDef(r, i), genumDef(r, i), gerrorDef(r, i), genumParsableDef(r, i)}
+			tw := genumTwinDefs(r, i)
+			if i%*twinEvery == 0 {
+				ds = append(ds, tw...)
+			}
+			for _, d := range ds {
+				d.First = i == 0
 				if strings.Contains(","+*only+",", ","+d.Gen+",") {
 					defs = append(defs, d)
 				}
@@ -726,7 +869,11 @@ func main() {
 		must(os.MkdirAll(dir, 0o755))
 		must(os.WriteFile(filepath.Join(dir, "def.go"), []byte(d.Source), 0o644))
 		args := append([]string{"-types", strings.Join(d.Types, ",")}, d.Opts...)
-		jobs[i] = job{Kind: d.Gen, Dir: dir, Args: args}
+		jobs[i] = job{Kind: d.Gen, Dir: dir, Pkg: d.Pkg, Args: args, Outs: filepath.Join(*work, "outs", d.Pkg),
+			Stale: *staleInproc == "all" || d.First}
+		if len(d.Types) >= 2 {
+			jobs[i].SubArgs = append([]string{"-types", d.Types[0]}, d.Opts...)
+		}
 	}
 	// resolve the module graph once (writes go.mod/go.sum additions) before anything runs in parallel
 	if rc, out := runCmd(*work, nil, "go", "list", "./..."); rc != 0 {
@@ -734,21 +881,42 @@ func main() {
 		os.Exit(1)
 	}
 	all := make([][]obs, len(defs))
-	// (1) in one process: batches of two definitions (of different generators) share a worker process
+	// (1) in one process: definitions of one batch (twin packages), else two neighbouring
+	// definitions (of different generators), share a worker process
+	var batches [][]int
+	for i := 0; i < len(defs); {
+		j := i + 1
+		if defs[i].Batch != "" {
+			for j < len(defs) && defs[j].Batch == defs[i].Batch {
+				j++
+			}
+		} else if j < len(defs) && defs[j].Batch == "" {
+			j++
+		}
+		idx := []int{}
+		for k := i; k < j; k++ {
+			idx = append(idx, k)
+		}
+		batches = append(batches, idx)
+		i = j
+	}
 	self, err := os.Executable()
 	must(err)
 	var wg sync.WaitGroup
 	sem := make(chan struct{}, 16)
 	var mu sync.Mutex
 	fail := ""
-	for lo := 0; lo < len(jobs); lo += 2 {
-		hi := min(lo+2, len(jobs))
+	for _, idx := range batches {
 		wg.Add(1)
-		go func(lo, hi int) {
+		go func(idx []int) {
 			defer wg.Done()
 			sem <- struct{}{}
 			defer func() { <-sem }()
-			jb, _ := json.Marshal(jobs[lo:hi])
+			bj := make([]job, len(idx))
+			for k, i := range idx {
+				bj[k] = jobs[i]
+			}
+			jb, _ := json.Marshal(bj)
 			c := exec.Command(self, "-worker", "-jobs", string(jb), "-reps", strconv.Itoa(*reps))
 			var so, se bytes.Buffer
 			c.Stdout, c.Stderr = &so, &se
@@ -759,14 +927,14 @@ func main() {
 			}
 			mu.Lock()
 			defer mu.Unlock()
-			if err != nil || len(res) != hi-lo {
-				fail += fmt.Sprintf("worker %d-%d failed: %v\n%s\n", lo, hi, err, se.String())
+			if err != nil || len(res) != len(idx) {
+				fail += fmt.Sprintf("worker %v failed: %v\n%s\n", idx, err, se.String())
 				return
 			}
-			for k := range res {
-				all[lo+k] = append(all[lo+k], res[k]...)
+			for k, i := range idx {
+				all[i] = append(all[i], res[k]...)
 			}
-		}(lo, hi)
+		}(idx)
 	}
 	wg.Wait()
 	if fail != "" {
@@ -774,44 +942,29 @@ func main() {
 		os.Exit(1)
 	}
 	// (2) in separate processes: the real CLIs, sequential per definition, definitions in parallel
-	outputs := make([]map[string]string, len(defs))
 	for i := range defs {
-		outputs[i] = map[string]string{}
-		if h := hashFile(outPath(jobs[i])); h != "" {
-			b, _ := os.ReadFile(outPath(jobs[i]))
-			outputs[i][h] = string(b)
-		}
 		wg.Add(1)
 		go func(i int) {
 			defer wg.Done()
 			sem <- struct{}{}
 			defer func() { <-sem }()
 			j := jobs[i]
-			for k := 0; k < *reps; k++ {
-				state := "existing"
-				if k%2 == 1 { // the in-process rounds ended on an existing file: start with it
-					os.Remove(outPath(j))
-					state = "fresh"
-				}
-				rc, log := runCmd(j.Dir, []string{"GOFILE=def.go", "PWD=" + j.Dir, "GOPACKAGE=" + defs[i].Pkg}, *bins[j.Kind], j.Args...)
-				o := obs{Mode: "cli", State: state, Sha: hashFile(outPath(j))}
+			for _, st := range plan(j, *reps, false, true) {
+				prepare(j, st.Prep)
+				rc, log := runCmd(j.Dir, []string{"GOFILE=def.go", "PWD=" + j.Dir, "GOPACKAGE=" + defs[i].Pkg}, *bins[j.Kind], argsOf(j, st.Cfg)...)
+				errText := ""
 				if rc != 0 {
 					lines := strings.Split(strings.TrimSpace(log), "\n")
 					last := lines[len(lines)-1]
 					if k := strings.Index(last, " "); k > 0 && len(last) > 20 {
 						last = last[20:] // drop the log timestamp
 					}
-					o.Err = fmt.Sprintf("exit %d: %s", rc, last)
-					if len(o.Err) > 160 {
-						o.Err = o.Err[:160]
+					errText = fmt.Sprintf("exit %d: %s", rc, last)
+					if len(errText) > 160 {
+						errText = errText[:160]
 					}
 				}
-				if o.Sha != "" {
-					if _, ok := outputs[i][o.Sha]; !ok {
-						b, _ := os.ReadFile(outPath(j))
-						outputs[i][o.Sha] = string(b)
-					}
-				}
+				o := record(j, "cli", st, errText)
 				mu.Lock()
 				all[i] = append(all[i], o)
 				mu.Unlock()
@@ -819,73 +972,118 @@ func main() {
 		}(i)
 	}
 	wg.Wait()
+	// distinct outputs per definition and configuration
+	outputsOf := func(i int, cfg string) map[string]string {
+		m := map[string]string{}
+		ents, _ := os.ReadDir(jobs[i].Outs)
+		for _, e := range ents {
+			if strings.HasPrefix(e.Name(), cfg+"-") {
+				b, _ := os.ReadFile(filepath.Join(jobs[i].Outs, e.Name()))
+				m[strings.TrimPrefix(e.Name(), cfg+"-")] = string(b)
+			}
+		}
+		return m
+	}
 	out := gal.NewOut(*prefix)
 	for i := range defs {
-		d := &defs[i]
-		jc := jcase{Kind: d.Gen, Def: *d, Obs: all[i]}
-		shas := make([]string, 0)
-		for h := range outputs[i] {
-			shas = append(shas, h)
-		}
-		sort.Strings(shas)
-		for k, h := range shas {
-			if k < 2 {
-				jc.Outputs = append(jc.Outputs, outputs[i][h])
-			}
-		}
-		if d.Gen == "gsort" && len(shas) > 0 {
-			for _, ln := range strings.Split(outputs[i][shas[0]], "\n") {
-				t := strings.TrimSpace(ln)
-				if strings.HasPrefix(t, "// ") && strings.Contains(t, " implements a sort.Sort interface for ") {
-					f := strings.Fields(t)
-					jc.Blocks = append(jc.Blocks, [2]string{f[1], strings.TrimSuffix(f[len(f)-1], ".")})
+		for _, cfg := range []string{"full", "sub"} {
+			d := &defs[i]
+			var cobs []obs
+			for _, o := range all[i] {
+				if o.Cfg == cfg {
+					cobs = append(cobs, o)
 				}
 			}
-		}
-		if len(shas) > 0 {
-			jc.ValueOrders, jc.NameOrders = orderObs(d, outputs[i][shas[0]])
-			for _, e := range d.Enums {
-				jc.NameOrderSizes = append(jc.NameOrderSizes, len(e.Traits))
+			if len(cobs) == 0 {
+				continue
 			}
-			for _, e := range d.Errors {
-				jc.NameOrderSizes = append(jc.NameOrderSizes, e.Printed)
+			kind := d.Gen
+			if cfg == "sub" {
+				kind += "/sub"
 			}
-		}
-		// Gallina: hashes (an empty string = no output file; errors folded into the string so
-		// that "same error every time" is also "equal")
-		hs := gal.ListOf(all[i], func(o obs) string { return galStr(o.Sha + "|" + o.Err) })
-		types := gal.ListOf(d.Structs, func(s SStruct) string {
-			return gal.Pair(galStr(s.Type), gal.ListOf(s.Fields, func(f SField) string {
-				return "{| fd_name := " + galStr(f.Name) + "; fd_isbool := " + gal.Bool(f.GoType == "bool") +
-					"; fd_tags := " + gal.ListOf(f.Tags, func(t STag) string {
-					return "{| tg_sorter := " + galStr(t.Sorter) + "; tg_prio := " + gal.Z(int64(t.Prio)) + "; tg_acc := " + galStr("") + " |}"
-				}) + " |}"
-			}))
-		})
-		blocks := gal.ListOf(jc.Blocks, func(b [2]string) string { return gal.Pair(galStr(b[0]), galStr(b[1])) })
-		evOf := map[string]string{}
-		for _, e := range d.Enums {
-			for _, v := range e.Values {
-				bits := "(" + strconv.FormatInt(v.Value, 10) + ")%Z"
-				if v.Value < 0 { // the uint64 bits of a negative constant
-					bits = "(18446744073709551616 + (" + strconv.FormatInt(v.Value, 10) + "))%Z"
+			jc := jcase{Cfg: cfg, Kind: kind, Def: *d, Obs: cobs}
+			outs := outputsOf(i, cfg)
+			// the output of the first generation into a fresh package first (the reference)
+			ref := ""
+			for _, o := range cobs {
+				if o.State == "fresh" && o.Sha != "" {
+					ref = o.Sha
+					break
 				}
-				evOf[v.Name] = "{| ev_name := " + galStr(v.Name) + "; ev_value := " + bits + "; ev_signed := " + gal.Bool(v.Value < 0) +
-					"; ev_depr := " + gal.Bool(v.Depr) + " |}"
 			}
-		}
-		vorders := gal.ListOf(jc.ValueOrders, func(vs []string) string {
-			return gal.ListOf(vs, func(n string) string {
-				if g, ok := evOf[n]; ok {
-					return g
+			shas := make([]string, 0)
+			for h := range outs {
+				if h != ref {
+					shas = append(shas, h)
 				}
-				return "{| ev_name := " + galStr("?"+n) + "; ev_value := 0%Z; ev_signed := false; ev_depr := false |}"
+			}
+			sort.Strings(shas)
+			if ref != "" {
+				shas = append([]string{ref}, shas...)
+			}
+			outputs := map[int]map[string]string{i: outs}
+			for k, h := range shas {
+				if k < 2 {
+					jc.Outputs = append(jc.Outputs, outputs[i][h])
+				}
+			}
+			if cfg == "sub" {
+				shas = nil // order observations are made on the full configuration only
+			}
+			if d.Gen == "gsort" && len(shas) > 0 {
+				for _, ln := range strings.Split(outputs[i][shas[0]], "\n") {
+					t := strings.TrimSpace(ln)
+					if strings.HasPrefix(t, "// ") && strings.Contains(t, " implements a sort.Sort interface for ") {
+						f := strings.Fields(t)
+						jc.Blocks = append(jc.Blocks, [2]string{f[1], strings.TrimSuffix(f[len(f)-1], ".")})
+					}
+				}
+			}
+			if len(shas) > 0 {
+				jc.ValueOrders, jc.NameOrders = orderObs(d, outputs[i][shas[0]])
+				for _, e := range d.Enums {
+					jc.NameOrderSizes = append(jc.NameOrderSizes, len(e.Traits))
+				}
+				for _, e := range d.Errors {
+					jc.NameOrderSizes = append(jc.NameOrderSizes, e.Printed)
+				}
+			}
+			// Gallina: hashes (an empty string = no output file; errors folded into the string so
+			// that "same error every time" is also "equal")
+			hs := gal.ListOf(cobs, func(o obs) string { return galStr(o.Sha + "|" + o.Err) })
+			types := gal.ListOf(d.Structs, func(s SStruct) string {
+				return gal.Pair(galStr(s.Type), gal.ListOf(s.Fields, func(f SField) string {
+					return "{| fd_name := " + galStr(f.Name) + "; fd_isbool := " + gal.Bool(f.GoType == "bool") +
+						"; fd_tags := " + gal.ListOf(f.Tags, func(t STag) string {
+						return "{| tg_sorter := " + galStr(t.Sorter) + "; tg_prio := " + gal.Z(int64(t.Prio)) + "; tg_acc := " + galStr("") + " |}"
+					}) + " |}"
+				}))
 			})
-		})
-		norders := gal.ListOf(jc.NameOrders, func(ns []string) string { return gal.ListOf(ns, galStr) })
-		g := "{| gd_kind := " + galStr(d.Gen) + "; gd_hashes := " + hs + "; gd_types := " + types + "; gd_blocks := " + blocks +
-			"; gd_value_orders := " + vorders + "; gd_name_orders := " + norders + " |}"
-		out.Case(g, jc)
+			blocks := gal.ListOf(jc.Blocks, func(b [2]string) string { return gal.Pair(galStr(b[0]), galStr(b[1])) })
+			evOf := map[string]string{}
+			for _, e := range d.Enums {
+				for _, v := range e.Values {
+					bits := "(" + strconv.FormatInt(v.Value, 10) + ")%Z"
+					if v.Value < 0 { // the uint64 bits of a negative constant
+						bits = "(18446744073709551616 + (" + strconv.FormatInt(v.Value, 10) + "))%Z"
+					}
+					evOf[v.Name] = "{| ev_name := " + galStr(v.Name) + "; ev_value := " + bits + "; ev_signed := " + gal.Bool(v.Value < 0) +
+						"; ev_depr := " + gal.Bool(v.Depr) + " |}"
+				}
+			}
+			vorders := gal.ListOf(jc.ValueOrders, func(vs []string) string {
+				return gal.ListOf(vs, func(n string) string {
+					if g, ok := evOf[n]; ok {
+						return g
+					}
+					return "{| ev_name := " + galStr("?"+n) + "; ev_value := 0%Z; ev_signed := false; ev_depr := false |}"
+				})
+			})
+			norders := gal.ListOf(jc.NameOrders, func(ns []string) string { return gal.ListOf(ns, galStr) })
+			g := "{| gd_kind := " + galStr(kind) + "; gd_hashes := " + hs + "; gd_types := " + types + "; gd_blocks := " + blocks +
+				"; gd_value_orders := " + vorders + "; gd_name_orders := " + norders + " |}"
+			out.Case(g, jc)
+		}
 	}
 	out.Close()
 }
